@@ -14,6 +14,8 @@ package main
 // outputs to content tokens (w017 -> 17); it never computes an expected order.
 
 import (
+	"crypto/sha1"
+	"encoding/hex"
 	"encoding/json"
 	"fmt"
 	"os"
@@ -365,15 +367,22 @@ func c18Classify(c *c18Case, got []int) (string, string) {
 		return ids
 	}
 	what := fmt.Sprintf("presented order %v, declared order %v", got, want)
-	switch {
-	case c18Equal(got, byKey(func(p c18Part) int { return p.Name.N })):
-		return "order:file-name", what + " (this is the order of the numbers in the file names)"
-	case c18Equal(got, byKey(func(p c18Part) int { return p.Zip })):
-		return "order:archive", what + " (this is the archive member order)"
-	case c18Equal(got, byKey(func(p c18Part) int { return p.Rel })):
-		return "order:listing", what + " (this is the order of the relationship / manifest entries)"
+	// every order of the package that explains what was presented; the check names the
+	// signature by the explanation common to all failing cases of the run
+	var fits []string
+	if c18Equal(got, byKey(func(p c18Part) int { return p.Name.N })) {
+		fits = append(fits, "file-name")
 	}
-	return "order:other", what
+	if c18Equal(got, byKey(func(p c18Part) int { return p.Rel })) {
+		fits = append(fits, "listing")
+	}
+	if c18Equal(got, byKey(func(p c18Part) int { return p.Zip })) {
+		fits = append(fits, "archive")
+	}
+	if len(fits) == 0 {
+		return "order:other", what
+	}
+	return "order:" + strings.Join(fits, "+"), what + " (the presented order is the " + strings.Join(fits, " / ") + " order)"
 }
 
 func c18DecoyName(c *c18Case) string {
@@ -434,6 +443,12 @@ func c18Check(c *c18Case, obs []c18API) *c18Mismatch {
 	return nil
 }
 
+// c18Key identifies the abstract case (distinctness) without carrying its text.
+func c18Key(raw []byte) string {
+	h := sha1.Sum(raw)
+	return hex.EncodeToString(h[:10])
+}
+
 func c18Nontrivial(c *c18Case) bool {
 	for _, p := range c.Parts {
 		if p.Decl > 0 && p.Decl != p.Name.N {
@@ -469,7 +484,7 @@ func c18Replay(i int, raw []byte) Result {
 	if err := json.Unmarshal(raw, &c); err != nil {
 		return fail("decode", "decode", err.Error(), nil)
 	}
-	res := Result{OK: true, Nontrivial: c18Nontrivial(&c), Key: string(raw), Evals: 5}
+	res := Result{OK: true, Nontrivial: c18Nontrivial(&c), Key: c18Key(raw), Evals: 5}
 	path, err := c18WriteCase(&c)
 	if err != nil {
 		panic(err)
